@@ -80,12 +80,32 @@ Definition crate_ctlname : aexp :=
 
 (* tag syntax of cddl.pest:  "#" DIGIT ("." tag_value)? ("(" S type S ")")?  |  "#" ("(" S type S ")")?
    ws = with the implicit skips, general = for every digit (otherwise the RFC forms) *)
+(* pest's optional "(" type ")" after a tag head is greedy: it is left out only where no parenthesised type follows.
+   The look-ahead uses the specification's own type (exact unless the parenthesised text itself contains a deviation). *)
+Definition paren_type_follows (ws : bool) (r : list N) : bool :=
+  let res := ls abnf_spec (ls_fuel r) (ASeqs [if ws then S_ else AEps; L "("; S_; R n_type; S_; L ")"]) r in
+  snd res || match fst res with [] => false | _ => true end.
+(* blanks and comments as pest skips them *)
+Fixpoint skip_blanks (fuel : nat) (in_comment : bool) (r : list N) : list N :=
+  match fuel with
+  | O => r
+  | S f => match r with
+           | [] => []
+           | c :: r' => if in_comment then skip_blanks f (negb (c =? 10)) r'
+                        else if (c =? 32) || (c =? 9) || (c =? 10) || (c =? 13) then skip_blanks f false r'
+                        else if c =? 59 then skip_blanks f true r'
+                        else r
+           end
+  end.
+Definition digit_after_blanks (r : list N) : bool := starts is_digit (skip_blanks (length r) false r).
+
 Definition tag_forms (tyh : aexp) (ws general : bool) : list aexp :=      (* tyh: the type inside "<" ">" *)
   let s := if ws then S_ else AEps in
   let tv := AAlts [R n_uint; ASeqs [L "<"; s; tyh; s; L ">"]] in
   let par := ASeqs [L "("; S_; R n_type; S_; L ")"] in
   if general then
-    [ASeqs [L "#"; s; R n_DIGIT; AOpt (ASeqs [s; L "."; s; tv]); AOpt (ASeqs [s; par])];
+    [ASeqs [L "#"; s; R n_DIGIT; AOpt (ASeqs [s; L "."; s; tv]);
+            AAlt (ASeqs [s; par]) (ALook (fun r => negb (paren_type_follows ws r)))];
      ASeqs [L "#"; s; par]]
   else
     [ASeqs [L "#"; s; L "6"; AOpt (ASeqs [s; L "."; s; tv]); s; par];
@@ -153,9 +173,19 @@ Definition variant_core (m : N) (tyh : aexp) : cfg :=
            [ASeqs [R n_notbytes; R n_typename; S_; R n_genericarg];
             ASeqs [L "~"; S_; R n_typename; S_; R n_genericarg];
             ASeqs [L "&"; S_; R n_groupname; S_; R n_genericarg]]
-           ++ tag_forms tyh true (bit m d_tag_forms)
-         else [])
-        ++ (if bit m d_tag_forms then tag_forms tyh false true else []) in
+           ++ (if bit m d_tag_forms then [] else tag_forms tyh true false)
+         else []) in
+  let g3 := if bit m d_implicit_ws || bit m d_tag_forms then
+              (* the bare "#": pest tries "#" DIGIT .. (over blanks when skipping) and "#" "(" type ")" first *)
+              override n_hashany
+                [ASeqs [L "#";
+                        ALook (fun r => negb (if bit m d_implicit_ws then digit_after_blanks r else starts is_digit r));
+                        ALook (fun r => negb (paren_type_follows (bit m d_implicit_ws) r))]] g3
+            else g3 in
+  (* with the general tag forms the optional "(" type ")" is greedy, so they REPLACE the RFC alternatives *)
+  let g3 := if bit m d_tag_forms
+            then override n_tag (tag_forms tyh (bit m d_implicit_ws) true) g3
+            else g3 in
   let g5 := g3 ++ map (fun e => (n_type2, e)) extra_t2 in
   (* group rules: with "=" the entry must not start like a type *)
   let np := if bit m d_paren_entry then ALook (fun r => negb (starts (N.eqb 40) r)) else AEps in
